@@ -56,6 +56,9 @@ pub struct ChildRec {
     pub output_blocked: bool,
     /// anthem killed the child.
     pub killed: bool,
+    /// Simulated clock when the child was started / killed.
+    pub spawn_clock_ms: u64,
+    pub killed_clock_ms: u64,
 }
 
 #[derive(Clone, Debug, Serialize)]
